@@ -432,6 +432,25 @@ class Executor:
             return Ref(0, slot, rv.path)
         return rv
 
+    def cast_arms(self, v, rng):
+        """(condition, integer) arms of `v as iN` (truncation toward zero) for the integers in rng"""
+        lo, hi = rng
+        arms = []
+        if v.op == "fceil":
+            y = v.args[0]
+            for n in range(lo, hi + 1):
+                arms.append((T.band(T.fcmp("flt", float(n - 1), y), T.fcmp("fle", y, float(n))), n))
+            return arms
+        for n in range(lo, hi + 1):
+            if n == 0:
+                c = T.band(T.fcmp("flt", -1.0, v), T.fcmp("flt", v, 1.0))
+            elif n > 0:
+                c = T.band(T.fcmp("fle", float(n), v), T.fcmp("flt", v, float(n + 1)))
+            else:
+                c = T.band(T.fcmp("flt", float(n - 1), v), T.fcmp("fle", v, float(n)))
+            arms.append((c, n))
+        return arms
+
     def eval_rvalue(self, st, rv):
         k = rv[0]
         if k == "use":
@@ -746,6 +765,26 @@ class Executor:
                 k = stt[0]
                 try:
                     self._cur = (fn.name, f.block, f.idx)
+                    if k == "assign" and stt[2][0] == "cast" and stt[2][1] == "FloatToInt":
+                        v = self.eval_operand(s, stt[2][2])
+                        if T.is_t(v):
+                            # a symbolic float becomes a loop bound: one arm per integer value inside the stated range;
+                            # values outside it are dropped and recorded (part of the claim's bounds)
+                            rng = getattr(self, "int_cast_range", None)
+                            if rng is None:
+                                raise Unsupported("symbolic float->int cast")
+                            arms = self.cast_arms(v, rng)
+                            if not hasattr(self, "cast_dropped"):
+                                self.cast_dropped = []
+                            self.cast_dropped.append(dict(fn=fn.name, range=rng, pc=list(s.pc), term=v))
+                            self.stats["forks"] += 1
+                            for i_, (cond, n_) in enumerate(arms):
+                                s2 = s if i_ == len(arms) - 1 else s.fork()
+                                s2.pc.append(cond)
+                                self.store(s2, self.resolve_place(s2, stt[1]), n_)
+                                s2.frames[depth].idx += 1
+                                active.append(s2)
+                            break
                     if k == "assign":
                         v = self.eval_rvalue(s, stt[2])
                         self.store(s, self.resolve_place(s, stt[1]), v)
